@@ -762,7 +762,7 @@ where
                 BinOp {
                     apply: cross,
                     prio: 4,
-                    is_commutative: true,
+                    is_commutative: false,
                 },
             ),
             Operator::make_bin(
@@ -871,7 +871,7 @@ where
                 BinOp {
                     apply: |a, b| Val::Bool(a == b),
                     prio: 1,
-                    is_commutative: true,
+                    is_commutative: false,
                 },
             ),
             Operator::make_bin(
@@ -911,7 +911,7 @@ where
                 BinOp {
                     apply: |a, b| Val::Bool(a != b),
                     prio: 1,
-                    is_commutative: true,
+                    is_commutative: false,
                 },
             ),
             Operator::make_bin(
